@@ -82,7 +82,12 @@ def run(ctx) -> None:
     pv = prog.function("v2version.parse_field_values_to_vinfo")
     ctx.visit(pv.fq)
     bd = shapes.single_def(pv, "bid")
-    ok = bd is not None and not any(isinstance(c, ast.Call) and unparse(c.func) == "int" for c in ast.walk(bd)) and "fvals['bid']" in unparse(bd)
+    from checks.c02 import fold_reader
+    folded = fold_reader(ctx, {"bid": "0099"})
+    if folded is not None and "bid" in folded:
+        ok = folded["bid"] == "0099" and isinstance(folded["bid"], str)          # the captured text, leading zeros kept
+    else:
+        ok = bd is not None and not any(isinstance(c, ast.Call) and unparse(c.func) == "int" for c in ast.walk(bd)) and "fvals['bid']" in unparse(bd)
     ctx.check("R3", ok, "parser: bid taken from the match group without int()", "v2version.parse_field_values_to_vinfo: BUILD is converted on read (leading zeros lost)", unparse(bd) if bd is not None else "", loc=pv.loc())
     from checks.c02 import part_tables
     pats, fields, fmts = part_tables(ctx)
